@@ -52,6 +52,82 @@ class Case:
         self.order = order or (lambda t, n: t)     # on-air bit position -> position in the code word (message o check)
 
 
+GENERATORS = {16: 0x11021, 8: 0x107, 9: 0x259}      # CRC-CCITT, CRC-8, CRC-9 generator polynomials (TS 102 361-1 B.3.8 - B.3.10)
+
+
+def poly_rem(positions, nbits, g):
+    """remainder of the polynomial with a term x^(nbits-1-c) for every code word position c, modulo g (harness arithmetic)"""
+    deg = g.bit_length() - 1
+    v = 0
+    for c in positions:
+        v ^= 1 << (nbits - 1 - c)
+    for sh in range(nbits - 1, deg - 1, -1):
+        if v >> sh & 1:
+            v ^= g << (sh - deg)
+    return v
+
+
+FOLDING_FIELDS = {      # enumerated fields whose undefined values the constructors fold onto a reserved member: (first bit, width)
+    "DataHeader/C": [(8, 4)], "DataHeader/U": [(8, 4)], "DataHeader/R": [(8, 4)], "DataHeader/S": [(8, 4), (64, 6)],
+    "DataHeader/T": [(8, 4), (12, 4)], "ShortLinkControl": [(4, 4), (8, 4)],
+}
+
+
+def fold_aimed_patterns(case, bits, nbits):
+    """(PDU bits, error pattern) pairs of weight 2 and 3 aimed at parsers that verify the check field over RE-SERIALISED fields:
+    inverting one bit of an enumerated field makes it take an undefined value, which the constructor folds onto its reserved
+    member, so the re-serialised message differs from the sent one in the set F; one or two more inverted bits are chosen such
+    that the whole difference is a multiple of the generator polynomial (searched over all values of the field, since a match
+    for one given PDU is a 2^-width event).  A parser that checks the received bits rejects every one of them."""
+    from bitarray.util import int2ba
+    g = GENERATORS.get(case.width)
+    fields_ = FOLDING_FIELDS.get(case.name)
+    if g is None or not fields_:
+        return []
+    lo, hi = case.field
+    msg = [t for t in range(nbits) if not lo <= t < hi]
+    unit = {t: poly_rem([case.order(t, nbits)], nbits, g) for t in msg}
+    by_rem = {}
+    for t in msg:
+        by_rem.setdefault(unit[t], []).append(t)
+    out = []
+    for f0, w in fields_:
+        for d in range(1 << w):
+            b0 = bits.copy()
+            b0[f0:f0 + w] = int2ba(d, length=w)
+            b0[lo:hi] = 0                       # an all-zero check field asks the constructor to generate it
+            try:
+                sent = case.ser(case.parse(b0))
+                if len(sent) != nbits or sent[f0:f0 + w] != b0[f0:f0 + w] or not case.indicator(case.parse(sent.copy())) or not sent[lo:hi].any():
+                    continue                    # d is not a value this field can be sent with
+            except Exception:  # noqa
+                continue
+            for k in range(w):
+                t = f0 + k
+                b = sent.copy()
+                b.invert(t)
+                try:
+                    r = case.ser(case.parse(b))
+                except Exception:  # noqa
+                    continue
+                if len(r) != nbits:
+                    continue
+                fold = [u for u in msg if r[u] != sent[u]]
+                if fold == [t]:
+                    continue                    # no folding: the re-serialised message is the received one
+                target = poly_rem([case.order(u, nbits) for u in fold], nbits, g)
+                # the other inverted bits lie outside every enumerated field and outside the format / opcode field
+                skip = fields_ + ([(4, 4)] if case.name.startswith("DataHeader") else [(0, 4)])
+                free = [u for u in msg if not any(x <= u < x + y for x, y in skip)]
+                hits = [[t, a] for a in by_rem.get(target, []) if a in free]
+                for a in free:
+                    hits += [[t, a, c] for c in by_rem.get(target ^ unit[a], []) if c in free and c > a]
+                    if len(hits) > 2:
+                        break
+                out += [(sent, sorted(h)) for h in hits[:3]]
+    return out
+
+
 def slc_order(t, n):
     return t if t < 28 else 28 + (7 - (t - 28))             # CRC-8 transmitted least significant bit first
 
@@ -172,6 +248,7 @@ def corrupt_case(args):
                     "cwpattern": sorted(case.order(t, nbits) for t in pattern), "outcome": outcome, "zero_field": zero})
 
     npdu = 6 if quick else 20
+    aimed = [0]
     for n in range(npdu):
         o = case.build(rng)
         bits = case.ser(o)
@@ -210,13 +287,20 @@ def corrupt_case(args):
             run([inv[c] for c in [st] + inner + [st + ln - 1]])
         for _ in range(600 if quick else 3000):      # weight 3
             run(rng.sample(range(nbits), 3))
+        if n < 3 and aimed[0] == 0:
+            for sent, pattern in fold_aimed_patterns(case, bits, nbits)[:60]:
+                b = sent.copy()
+                for t in pattern:
+                    b.invert(t)
+                rec(pattern, classify(case, fields(case.parse(sent.copy())), b), nbits, not b[lo:hi].any())
+                aimed[0] += 1
         # aimed at the all-zero check field: flip exactly the set bits of the check field (+ one more bit)
         setbits = [t for t in range(lo, hi) if bits[t]]
         if setbits:
             run(setbits)
             for extra in rng.sample([t for t in range(nbits) if not lo <= t < hi], 6):
                 run(sorted(setbits + [extra]))
-    return rt, cor
+    return rt, cor, aimed[0]
 
 
 def low_weight_targets(seed):
@@ -278,6 +362,7 @@ def run(ctx):
         targets = pool.apply(low_weight_targets, (ctx.seed,))
     rt = sum((p[0] for p in parts), [])
     cor = sum((p[1] for p in parts), []) + targets
+    ctx.note("fold_aimed_patterns", sum(p[2] for p in parts))
     ctx.count(None, (1 << 20) + (1 << 16))
     for c in cor:
         ctx.count(core.digest([c["cls"], c["pattern"], c["outcome"]]))
